@@ -9,6 +9,7 @@ import (
 	"errors"
 	"fmt"
 	"os"
+	"runtime"
 	"sort"
 	"strings"
 	"testing"
@@ -34,7 +35,7 @@ import (
 type ReqSpec struct {
 	Peer    int    `json:"peer"`     // 0 or 1
 	Root    int    `json:"root"`     // index into the DAG's block order counted from the root (0 = DAG root)
-	ReqHook string `json:"req_hook"` // validate novalidate error pause
+	ReqHook string `json:"req_hook"` // validate novalidate error pause yield (validates, then lets other goroutines run)
 	PauseAt int    `json:"pause_at"` // outgoing block hook pauses at this block index (0 = never)
 	ErrAt   int    `json:"err_at"`   // outgoing block hook errors at this block index
 	ExtAt   int    `json:"ext_at"`   // outgoing block hook sends extension data at this index
@@ -46,6 +47,9 @@ type Op struct {
 	R    int    `json:"r"`
 	Ext  string `json:"ext,omitempty"`
 	Fast bool   `json:"fast,omitempty"` // after the op only wait for quiescence; do not let virtual time pass
+	// Burst: the next op follows without waiting at all, so that the responder finds both in its inbox together
+	// (e.g. a request and its cancel, handled while a worker is just picking the request's task up)
+	Burst bool `json:"burst,omitempty"`
 }
 
 type Case struct {
@@ -73,7 +77,7 @@ func Gen(t *rapid.T, maxBlocks int) Case {
 	c := Case{DAG: dagen.GenDAG(t, dagen.GenOpts{MaxBlocks: maxBlocks, MaxDepth: 2}), Sel: dagen.RecAll(int64(rapid.SampledFrom([]int{-1, 3, 10}).Draw(t, "lim")))}
 	n := rapid.IntRange(1, 4).Draw(t, "nreqs")
 	for i := 0; i < n; i++ {
-		r := ReqSpec{Peer: rapid.IntRange(0, 1).Draw(t, "peer"), ReqHook: rapid.SampledFrom([]string{"validate", "validate", "validate", "novalidate", "error", "pause"}).Draw(t, "reqhook")}
+		r := ReqSpec{Peer: rapid.IntRange(0, 1).Draw(t, "peer"), ReqHook: rapid.SampledFrom([]string{"validate", "validate", "validate", "novalidate", "error", "pause", "yield"}).Draw(t, "reqhook")}
 		if rapid.IntRange(0, 3).Draw(t, "subroot") == 0 {
 			r.Root = rapid.IntRange(0, 3).Draw(t, "root")
 		}
@@ -94,12 +98,13 @@ func Gen(t *rapid.T, maxBlocks int) Case {
 	// every request gets a "new"; other ops are sprinkled around
 	var ops []Op
 	for i := 0; i < n; i++ {
-		ops = append(ops, Op{K: "new", R: i, Fast: rapid.IntRange(0, 2).Draw(t, "newfast") == 0})
+		ops = append(ops, Op{K: "new", R: i, Fast: rapid.IntRange(0, 2).Draw(t, "newfast") == 0, Burst: rapid.IntRange(0, 4).Draw(t, "newburst") == 0})
 		m := rapid.IntRange(0, 3).Draw(t, "nops")
 		for j := 0; j < m; j++ {
 			op := Op{K: rapid.SampledFrom([]string{"cancelmsg", "updatemsg", "apipause", "apiunpause", "apicancel", "apiupdate", "disconnect", "release", "unstall", "cancelmsg", "updatemsg"}).Draw(t, "opk"), R: rapid.IntRange(0, n-1).Draw(t, "opr")}
 			op.Ext = rapid.SampledFrom([]string{ExtUnpause, ExtError, "other"}).Draw(t, "opext")
 			op.Fast = rapid.IntRange(0, 2).Draw(t, "opfast") == 0
+			op.Burst = rapid.IntRange(0, 5).Draw(t, "opburst") == 0
 			ops = append(ops, op)
 		}
 	}
@@ -196,6 +201,11 @@ func Run(t *testing.T, c Case) *Result {
 		k := len(b.Order) - 1 - r%len(b.Order)
 		return b.Order[k]
 	}
+	dbg := func(f string, a ...interface{}) {
+		if os.Getenv("VERIF_DEBUG") != "" {
+			fmt.Printf("  [resplife] "+f+"\n", a...)
+		}
+	}
 	ro := sim.Run(t, func(w *sim.World) {
 		store := sim.NewStore(b.Data, true)
 		gate := make(chan struct{})
@@ -223,6 +233,13 @@ func Run(t *testing.T, c Case) *Result {
 			}
 			k := sendN
 			sendN++
+			if os.Getenv("VERIF_DEBUG") != "" {
+				d := ""
+				for _, r := range m.Responses() {
+					d += fmt.Sprintf(" req%d:%s", idx[r.RequestID()], r.Status())
+				}
+				dbg("send #%d to %s:%s blocks=%d fail=%v stall=%v", k, to, d, len(m.Blocks()), failSet[k], stallSet[k])
+			}
 			if failSet[k] {
 				res.SendFaults++
 				return sim.SendFail
@@ -244,6 +261,7 @@ func Run(t *testing.T, c Case) *Result {
 			}
 			k := connN
 			connN++
+			dbg("connect #%d to %s fail=%v", k, to, connFail[k])
 			if connFail[k] {
 				res.SendFaults++
 				return errors.New("sim: connect failed")
@@ -276,6 +294,11 @@ func Run(t *testing.T, c Case) *Result {
 			case "pause":
 				ha.ValidateRequest()
 				ha.PauseResponse()
+			case "yield":
+				ha.ValidateRequest()
+				for k := 0; k < 200; k++ {
+					runtime.Gosched()
+				}
 			}
 		})
 		rs.GS.RegisterOutgoingBlockHook(func(p peer.ID, rd graphsync.RequestData, bd graphsync.BlockData, ha graphsync.OutgoingBlockHookActions) {
@@ -303,21 +326,28 @@ func Run(t *testing.T, c Case) *Result {
 		})
 		rs.GS.RegisterCompletedResponseListener(func(p peer.ID, rd graphsync.RequestData, st graphsync.ResponseStatusCode) {
 			if i, ok := idx[rd.ID()]; ok {
+				dbg("listener: completed req%d %s", i, st)
 				res.Events[i].Completed = append(res.Events[i].Completed, st)
 			}
 		})
 		rs.GS.RegisterRequestorCancelledListener(func(p peer.ID, rd graphsync.RequestData) {
 			if i, ok := idx[rd.ID()]; ok {
+				dbg("listener: requestor-cancelled req%d", i)
 				res.Events[i].Cancelled++
 			}
 		})
 		rs.GS.RegisterNetworkErrorListener(func(p peer.ID, rd graphsync.RequestData, err error) {
 			if i, ok := idx[rd.ID()]; ok {
+				dbg("listener: network-error req%d: %v", i, err)
 				res.Events[i].NetErr++
 			}
 		})
 
+		burst := false
 		settle := func(fast bool) {
+			if burst {
+				return
+			}
 			if fast {
 				w.Wait()
 				return
@@ -373,6 +403,11 @@ func Run(t *testing.T, c Case) *Result {
 				res.LiveHits++
 				res.Labels["live-"+op.K] = true
 			}
+			if burst {
+				res.Labels["ops-arriving-together"] = true
+			}
+			burst = op.Burst
+			dbg("op %+v", op)
 			switch op.K {
 			case "new":
 				if res.Received[i] {
@@ -433,8 +468,13 @@ func Run(t *testing.T, c Case) *Result {
 				w.Net.ReleaseBlocked()
 				settle(op.Fast)
 			}
-			snapshot(op.K)
+			if !burst {
+				w.Wait() // (an op that did nothing does not settle what a burst before it left in flight)
+				snapshot(op.K)
+			}
 		}
+		burst = false
+		settle(true)
 		if !gateOpen {
 			gateOpen = true
 			close(gate)
